@@ -52,6 +52,7 @@ structure State where
 inductive Err where
   | none        -- err == nil
   | invalidUID  -- cache.ErrInvalidUID
+  | invalidUserID -- ptttype.ErrInvalidUserID
   | io          -- an error from os (open, seek)
   deriving DecidableEq, Repr, Inhabited
 
@@ -121,12 +122,91 @@ def deUMoney (s : State) (uid money : Int) : State × M (Int × Err) :=
         if money < 0 ∧ cur < wrap32 (-money) then setUMoney s uid 0
         else setUMoney s uid (wrap32 (cur + money))
 
+/-! ### the whole-record path: ptt/passwd.go passwdSyncQuery / passwdSyncUpdate over cmbbs.PasswdQuery / PasswdUpdate
+
+A `UserecRaw` value held by a caller is modelled by its serialisation (`binary.Write`, little endian): a list of
+`recSize` bytes.  `encoding/binary` reads a `bool` as `byte != 0` and writes it as 0/1, so a record that was read
+from the file carries normalised bytes at the `bool` offsets. -/
+
+def RSZ : Nat := Gen.Money.recSize
+def MOFF : Nat := Gen.Money.moneyOffset
+def LOFF : Nat := Gen.Money.userLevelOffset
+
+/-- `UID.IsValid()`: `u >= 1 && u <= MAX_USERS`. -/
+def uidIsValid (uid : Int) : Bool := decide (1 ≤ uid) && decide (uid ≤ (MAX : Int))
+
+/-- bytes → struct → bytes. -/
+def normRec (bs : List Nat) : List Nat :=
+  Gen.Money.boolOffsets.foldl (fun acc o => match acc[o]? with
+    | some b => acc.set o (if b = 0 then 0 else 1)
+    | none => acc) bs
+
+/-- `cmbbs.PasswdQuery`: the record of slot `uid` as a struct value, or the error. -/
+def passwdQuery (s : State) (uid : Int) : Except Err (List Nat) :=
+  if !uidIsValid uid then .error .invalidUserID
+  else match s.file with
+    | none => .error .io                                   -- os.Open fails
+    | some f =>
+        let i := toIdx uid
+        if i < 0 then .error .io                             -- Seek to a negative offset
+        else
+          let off := RSZ * i.toNat
+          if off + RSZ ≤ f.length then .ok (normRec ((f.drop off).take RSZ))
+          else .error .io                                    -- io.EOF / io.ErrUnexpectedEOF from binary.Read
+
+/-- `rec.Money = v` on the serialised record. -/
+def recSetMoney (rec : List Nat) (v : Int) : List Nat := writeAt rec MOFF (le32 v)
+
+/-- `rec.UserLevel = perm` (a uint32) on the serialised record. -/
+def recSetLevel (rec : List Nat) (perm : Nat) : List Nat := writeAt rec LOFF (le32 (Int.ofNat perm))
+
+/-- `passwdSyncQuery`: `PasswdQuery`, then `user.Money = cache.MoneyOf(uid)`. -/
+def passwdSyncQuery (s : State) (uid : Int) : M (Except Err (List Nat)) :=
+  match passwdQuery s uid with
+  | .error e => .ok (.error e)
+  | .ok rec => do
+      let v ← moneyOf s uid
+      pure (.ok (recSetMoney rec v))
+
+/-- `cmbbs.PasswdUpdate`: the whole record at `USEREC_RAW_SZ * (uid-1)`. -/
+def passwdUpdate (s : State) (uid : Int) (rec : List Nat) : State × Err :=
+  if !uidIsValid uid then (s, .invalidUID)
+  else match s.file with
+    | none => (s, .io)
+    | some f =>
+        let i := toIdx uid
+        if i < 0 then (s, .io)
+        else ({ s with file := some (writeAt f (RSZ * i.toNat) rec) }, .none)
+
+/-- `passwdSyncUpdate`: validity, `user.Money = cache.MoneyOf(uid)` on the caller's record, `PasswdUpdate` of
+that record. -/
+def passwdSyncUpdate (s : State) (uid : Int) (rec : List Nat) : State × M Err :=
+  if !uidIsValid uid then (s, .ok .invalidUID)
+  else match moneyOf s uid with
+    | .error e => (s, .error e)
+    | .ok v =>
+        let r := passwdUpdate s uid (recSetMoney rec v)
+        (r.1, .ok r.2)
+
+/-- `ptt.SetUserPerm(_, uid, rec, perm)`: `rec.UserLevel = perm`, `passwdSyncUpdate`; answers `perm` or
+`PERM_INVALID` (0) with the error. -/
+def setUserPerm (s : State) (uid : Int) (rec : List Nat) (perm : Nat) : State × M (Int × Err) :=
+  let r := passwdSyncUpdate s uid (recSetLevel rec perm)
+  match r.2 with
+  | .error e => (r.1, .error e)
+  | .ok .none => (r.1, .ok (Int.ofNat perm, .none))
+  | .ok e => (r.1, .ok (0, e))
+
 /-! ### operations and histories -/
 
 inductive Op where
   | set (uid money : Int)
   | de (uid money : Int)
   | get (uid : Int)
+  /-- `ptt.SetUserPerm` with the caller's (possibly stale) record: a whole-record write. -/
+  | sync (uid : Int) (rec : List Nat) (perm : Nat)
+  /-- `passwdSyncQuery` (through `ptt.GetUser`): a read. -/
+  | load (uid : Int)
   deriving Repr, DecidableEq
 
 /-- what an operation answers: `(value, error class)` or a Go panic. -/
@@ -136,6 +216,13 @@ def step (s : State) : Op → State × Ans
   | .set u m => setUMoney s u m
   | .de u m => deUMoney s u m
   | .get u => (s, (moneyOf s u).map fun v => (v, Err.none))
+  | .sync u rec perm => setUserPerm s u rec perm
+  | .load u =>
+      -- state unchanged; the answer is the `Money` of the record `passwdSyncQuery` returns (it was just assigned
+      -- from `MoneyOf`), or `0` with the error class when there is no record.  The record itself: `passwdSyncQuery`.
+      (s, match passwdQuery s u with
+          | .error e => .ok (0, e)
+          | .ok _ => (moneyOf s u).map fun v => (v, Err.none))
 
 def run (s : State) : List Op → State
   | [] => s
@@ -158,6 +245,8 @@ def specStep (b : Bal) : Op → Bal
   | .set u m => if Valid u then upd b u m else b
   | .de u m => if Valid u then upd b u (deNew (b u) m) else b
   | .get _ => b
+  | .sync _ _ _ => b
+  | .load _ => b
 
 def specRun (b : Bal) : List Op → Bal
   | [] => b
@@ -169,6 +258,13 @@ def NoOverflow (b : Bal) : Op → Prop
   | .set _ m => Int32 m
   | .de u m => Int32 m ∧ (Valid u → m ≠ -2147483648 ∧ Int32 (deNew (b u) m))
   | .get _ => True
+  | .sync _ rec perm => rec.length = Gen.Money.recSize ∧ perm < 4294967296   -- a UserecRaw value and a uint32
+  | .load _ => True
+
+/-- the record handed to a whole-record write is a serialised `UserecRaw` (always `recSize` bytes in Go). -/
+def RecOK : Op → Prop
+  | .sync _ rec _ => rec.length = Gen.Money.recSize
+  | _ => True
 
 def NoOverflowRun (b : Bal) : List Op → Prop
   | [] => True
